@@ -366,6 +366,14 @@ func (h *Handshaker) ReplayBlocks(
 		}
 	}
 
+	// A chain whose initial height is above 1 has no blocks below it: until the first block has
+	// been applied the state stands at LastBlockHeight 0, i.e. just below InitialHeight. Compare
+	// the store with that height, or a crash between saving the first block and saving the state
+	// could never be recovered from ("StoreBlockHeight > StateBlockHeight + 1").
+	if stateBlockHeight == 0 && state.InitialHeight > 1 {
+		stateBlockHeight = state.InitialHeight - 1
+	}
+
 	// First handle edge cases and constraints on the storeBlockHeight and storeBlockBase.
 	switch {
 	case storeBlockHeight == 0:
